@@ -15,6 +15,8 @@ CLAIMS = {
          "Lean 4 proof (lock-step fold invariant, sorted-permutation uniqueness) + translator-regenerated size table + exhaustive small-scope differential correspondence", "§7 C10"),
  "C05": ("Lean 4 theorem C05_all: for each of the eleven expression-level gas detectors, for every tree, the model reports exactly the locations of the nodes anywhere in the file (outside assembly, via C01) that have the detector's exact form; canonical forms are exact and exact forms are never clearly-non-matching (specifications in lean/Solstat/Spec/C05.lean, written through one-level views, independent of the model's nested matches). shift_math's digit-string test is proved equal to 'value is 2^k'; increment_decrement's location subtraction is proved equal to 'prefix form under an unchecked block' given distinct locations. Model = code observed on generated files with every canonical/near-miss form placed at random syntactic positions; the oracle (canonical => reported, reported => not non-matching) is evaluated on the implementation's output.",
          "Lean 4 proofs of per-detector exact characterisations lifted by the walker theorem + differential correspondence + executable C/N oracle", "§7 C05, §8.1"),
+ "C07": ("Lean 4 theorems: unsafe_erc20_operation and floating_pragma meet their specification in the C05 sense (exact set anywhere in the file); divide_before_multiply reports exactly the nodes in the relation DivideBeforeMultiply (operand chains as inductive relations; the code's loops are proved to decide them); unprotected_selfdestruct reports exactly the selfdestruct/suicide call sites in contract-level non-constructor public/external functions without an only-modifier and without a msg.sender-checking call (unprotectedSelfdestruct_exact), giving the MUST-NOT half in full and the MUST half for the call-based hypothesis (partial w.r.t. the mention-based wording, which the oracle evaluates). Model = code observed on generated files; oracles evaluated on the implementation's output.",
+         "Lean 4 proofs (inductive chain relations, exact site characterisation) lifted by the walker theorem + differential correspondence + executable MUST/MUST-NOT oracle", "§7 C07, §8.3"),
 }
 
 def main():
